@@ -18,7 +18,7 @@ def graph_shapes():
     for k in (2, 3, 4, 5):
         out.append((f"clique{k}", gen2d.ladder(k, 1, 0)))
     # path P_k: stem t = (2t+1, 2t+4) crosses only t+1
-    for k in (3, 4, 5, 6):
+    for k in (3, 4, 5, 6, 7, 8):
         n = 2 * k + 2
         p = [0] * n
         for t in range(k):
@@ -26,7 +26,7 @@ def graph_shapes():
             p[a - 1], p[b - 1] = b, a
         out.append((f"path{k}", p))
     # star: one long stem crossed by k short ones
-    for k in (3, 4, 5):
+    for k in (3, 4, 5, 6, 7):
         n = 2 * k + 2
         p = [0] * n
         p[0], p[k + 1 - 1 + 1] = k + 2, 1
@@ -74,7 +74,7 @@ def write(n, regs, ord_):
 
 def run(ctx):
     ctx.coverage["rule"] = ("every pairing on <= N positions (N = 8 quick, 9 thorough), random layouts whose groups of crossing stems have <= 6 "
-                            "(thorough 8) members, and conflict graphs chosen by shape (cliques, paths, stars, two components). "
+                            "(thorough 8) members, and conflict graphs chosen by shape (cliques, paths up to 8 stems, stars up to 8 stems, two components). "
                             "Non-trivial = some group has >= 3 stems; distinct by pair array.")
     lim = 6 if ctx.quick else 8
     corr_expr, corr_exp, corr_case = [], [], []
@@ -92,7 +92,10 @@ def run(ctx):
         seq = gen2d.seq_for(ctx.rng, len(pairs))
         b = impl2d.mk(seq, pairs)
         sizes = component_sizes(b)
-        if any(s > lim for s in sizes) or len(impl2d.regions(b)) > 10:
+        # the shapes with a group of 7 or 8 stems (path7, path8, star6, star7) run in both tiers: the enumeration is factorial and a
+        # bound on it shows only there; their sparse conflict graphs keep the oracle's search small (implementation against the search oracle only: the Coq model's factorial enumeration of these four does not finish within the case timeout)
+        big_shape = kind in ("path7", "path8", "star6", "star7")
+        if (any(s > lim for s in sizes) and not big_shape) or len(impl2d.regions(b)) > 10:
             continue
         ctx.count(tuple(pairs), any(s >= 3 for s in sizes), kind)
         regs = impl2d.regions(b)
@@ -117,10 +120,11 @@ def run(ctx):
                 ctx.violation("pseudoknot-free structure: list is not a single round-bracket string", {"case": case})
         be = bexpr(seq, pairs)
         # the Coq model (permutation-based) and the Coq characterisation (stable assignments) both equal the implementation's list
-        corr_expr.append(f"run_all_db {be}")
-        corr_exp.append(alls)   # in order: the list is sorted since the C14 fix
-        corr_case.append((case, "all_db"))
-        if len(regs) <= 8:
+        if not big_shape:
+            corr_expr.append(f"run_all_db {be}")
+            corr_exp.append(alls)   # in order: the list is sorted since the C14 fix
+            corr_case.append((case, "all_db"))
+        if len(regs) <= 8 and not big_shape:
             corr_expr.append(f"run_stable_db {be}")
             corr_exp.append(sorted(alls))
             corr_case.append((case, "stable_db"))
